@@ -2,6 +2,7 @@
 import json
 import logging
 import random
+import re
 from types import SimpleNamespace
 
 import lib_C08 as L
@@ -12,7 +13,9 @@ THEOREM = ("Ufo2ft.C08.C08_pure / C08_history / C08_sorted_unique / sortOn_perm_
            "lookupGroupsOut_perm / registerLookups_perm / registerLookups_dflt_swap / sortPairs_perm / classNamingOrder_perm / "
            "groupMarkClasses_perm / groupMarkClasses_sets / marksSorted_perm / cursivePairs_perm / ligCarets_perm / "
            "sortedGlyphClass_names / anchorsToAdd_perm / partitionByScript_sets / mergedSets_perm / splitKerning_perm / "
-           "C08_vfinfo / infoInit_frame / infoInit_temp / infoInit_lib_agnostic / C08_history_vfinfo / infoInitAliased_touches")
+           "C08_vfinfo / infoInit_frame / infoInit_temp / infoInit_lib_agnostic / C08_history_vfinfo / infoInitAliased_touches / "
+           "created_pinned / created_value / created_unset_clock / minIdx_spec / closest_spec / closest_lib_agnostic")
+PROOF_FILES = ["C08", "C08Env"]
 N = {"quick": 40, "thorough": 500}
 RULE = ("(1) digests: random feature-rich fonts (2-4 scripts incl. RTL/Indic, kerning groups + glyph/class pairs incl. cross-script, "
         "mark/mkmk/ligature/cursive/caret anchors, composites with propagateAnchors, categories from lib/GDEF/none, languagesystems, "
@@ -33,8 +36,24 @@ RULE = ("(1) digests: random feature-rich fonts (2-4 scripts incl. RTL/Indic, ke
         "ufoLib2 glyph; InfoCompiler(otf, master, overrides).compile() on a really compiled font of a ufoLib2 and of a defcon master "
         "(random master fontinfo x 0-8 overrides hitting present / absent / equal-valued attributes): every fontinfo attribute of the master "
         "before == after, and the temporary Info == the Lean model's (override where given, master's value elsewhere). "
+        "Every 4th digest case runs all its interpreters with SOURCE_DATE_EPOCH=0 (the epoch itself), two thirds of the others with another "
+        "boundary value (1, 00, 86399, 2000-02-29, 2^31, 2100) instead of the check's default: the interpreters of a case start seconds apart, so "
+        "a creation date taken from the wall clock shows as a head mismatch. Every 6th digest font (static, propagateAnchors filter) has a "
+        "mark-only 'ligature mark' composite one of whose components has a cubic WITHOUT on-curve extrema (off-curve points stick out by B, the "
+        "curve by 3B/4), in 4 of 5 placed so that the distance of the other component's lower-left corner lies between the exact and the "
+        "control-box corner: compiled from defcon and ufoLib2 objects like every digest case. "
+        "Emitter streams for the same two mechanisms: `created` = getAttrWithFallback(info, 'openTypeHeadCreated') with SOURCE_DATE_EPOCH as "
+        "text (0, 1, day/leap-day/2038 boundaries, random; forms int() accepts: leading 0, +, blanks; rarely unset / empty / not a number), "
+        "with or without an explicit fontinfo date, under TWO fake wall clocks (time.gmtime() patched), compared with the Lean model and "
+        "with each other; `closest` = propagateAnchors._bounds + _component_closest_to_origin on the copied glyph set of such a composite "
+        "built with defcon and with ufoLib2, compared with the closed-form exact corners and the model's argmin. "
         "non-trivial = digests case with >= 2 scripts, kerning pairs and marks; emitter case whose two orders really differ.")
-ASSUMED = ["fontTools/feaLib/varLib/cu2qu/cffsubr are deterministic functions of their inputs (measured by the digest runs, not modelled)",
+ASSUMED = ["datetime.fromtimestamp(e, utc).strftime is the proleptic Gregorian calendar (modelled as civil-from-days arithmetic; every observed "
+           "date is checked by the independent year-by-year count `denotes`, the arithmetic identity itself is not proved for all e); int() of "
+           "the environment text is an input; SOURCE_DATE_EPOCH >= 0",
+           "the bounds a UFO library / fontTools BoundsPen reports for a component are inputs of the model (observed equal to closed-form "
+           "exact corners on the generated shapes, both libraries)",
+           "fontTools/feaLib/varLib/cu2qu/cffsubr are deterministic functions of their inputs (measured by the digest runs, not modelled)",
            "PYTHONHASHSEED is sampled at 5-7 values per font, not all 2^32: the Perm-invariance theorems cover the modelled emitters for every order",
            "a lookup object is identified with its (unique) name; a dict has unique keys (hypothesis `Nodup` of the theorems)",
            "MATH and colour-layer sources are not generated: compiling them modifies the sources (C07 findings), C08 inherits exactly those",
@@ -201,10 +220,14 @@ def _gen_digest_case(rng, i, thorough):
     # every 6th case: a static font with the propagateAnchors filter and a composite whose propagated anchor keys collide
     # (two carriers of "top" + a ligature with its own top_1): what gets appended depends on the order of a set of names
     collide = i % 6 == 3
-    fd = L.gen_font(rng, dense=True if compact else None, collide=collide)
+    # every 6th case: a static font with the filter and a mark-only "ligature mark" composite one of whose components has a
+    # curve WITHOUT on-curve extrema (exact box != control box), placed so that which component is nearest to the origin
+    # depends on which box is used: _bounds has one branch per UFO library
+    markliga = i % 6 == 4
+    fd = L.gen_font(rng, dense=True if compact else None, collide=collide, markliga=markliga)
     if collide and "lat" not in fd["_stats"]["scripts"]:
         fd = L.gen_font(random.Random(i), collide=True)
-    static = (rng.random() < 0.4 and not compact) or collide
+    static = (rng.random() < 0.4 and not compact) or collide or markliga
     if static:
         fds = [fd]
         scripts = STATIC_SCRIPTS
@@ -238,6 +261,11 @@ def _gen_digest_case(rng, i, thorough):
     # only (the overrides are data of the DESIGNSPACE; the masters, and every later compile of them, must not see them)
     vfinfo = _gen_vfinfo(rng) if (not static and i % 3 != 2) else None
     case_extra = {"vfinfo": vfinfo} if vfinfo else {}
+    # the value of SOURCE_DATE_EPOCH (the same in every interpreter of the case; the interpreters run at different wall-clock
+    # times): every 4th case the epoch itself, otherwise the check's default or another boundary value
+    epoch = "0" if i % 4 == 1 else rng.choice([None, None, None, "1", "00", "86399", "951782400", "2147483648", "4102444800"])
+    if epoch is not None:
+        case_extra["epoch"] = epoch
     ref = {"hashseed": 0, "lib": "ufoLib2", "source": "mem", "reopen": None, "shuffle": None, "steps": [[k, "fresh"] for k in kinds]}
     return dict({"kind": "digests", "fds": fds, "opts": opts, "ref": ref, "procs": procs}, **case_extra)
 
@@ -290,7 +318,7 @@ def gen(rng, n, mode):
         items = []
         for _ in range(25):
             k = rng.choice(["kernwrite", "register", "register", "split", "split", "split", "color", "sortnames", "curs", "carets",
-                            "glyphclass", "toadd", "toadd", "copyglyph", "vfinfo"])
+                            "glyphclass", "toadd", "toadd", "copyglyph", "vfinfo", "created", "closest"])
             s = rng.randrange(10 ** 9)
             if k in ("kernwrite", "register"):
                 it = {"op": k, "lookups": _gen_lookups(rng, adversarial), "seed": s, "kern": rng.random() < 0.7,
@@ -316,6 +344,18 @@ def gen(rng, n, mode):
             elif k == "glyphclass":
                 order = rng.sample(["a", "B", "c", "Zed", "f_i", "acutecomb", ".notdef", "a.sc"], rng.randrange(1, 8))
                 it = {"op": k, "order": order, "names": rng.sample(order + ["ghost"], rng.randrange(0, len(order) + 1)), "seed": s}
+            elif k == "created":
+                # SOURCE_DATE_EPOCH as TEXT (forms int() accepts; the epoch itself; day / leap-day / 2038 boundaries; rarely unset
+                # or not a number), sometimes an explicit openTypeHeadCreated, and two wall clocks
+                e = rng.choice([0, 0, 0, 1, 59, 86399, 86400, 951782399, 951782400, 1700000000, 2147483647, 2147483648, 4102444800,
+                                rng.randrange(0, 4 * 10 ** 9)])
+                r = rng.random()
+                env = None if r < 0.12 else "" if r < 0.16 else "12h" if r < 0.2 else rng.choice(["%d", "%d", "%d", "0%d", "+%d", " %d "]) % e
+                it = {"op": k, "seed": s, "env": env, "explicit": rng.choice([None, None, None, None, "2020/02/29 12:30:59"]),
+                      "now": rng.sample(range(1, 4 * 10 ** 9), 2), "lib": rng.choice(["ufoLib2", "defcon"])}
+            elif k == "closest":
+                gl, name, exact = L.markliga_glyphs(rng, between=adversarial or rng.random() < 0.7, prefix="")
+                it = {"op": k, "seed": s, "glyphs": gl, "composite": name, "exact": [[rat(x), rat(y)] for x, y in exact]}
             elif k == "vfinfo":
                 # a master's fontinfo (the digest fonts' info + some of the pool's attributes at OTHER values) and the overrides of
                 # a <variable-font>: attributes the master has, attributes it lacks, values equal to the master's
@@ -656,12 +696,79 @@ def _run_vfinfo(it, rng):
             "nontrivial": changes > 0}
 
 
-RUNNERS = {"vfinfo": _run_vfinfo, "copyglyph": _run_copyglyph, "kernwrite": _run_kernwrite, "register": _run_register, "split": _run_split, "color": _run_color, "sortnames": _run_sortnames,
+_DATE = re.compile(r"(\d{4})/(\d\d)/(\d\d) (\d\d):(\d\d):(\d\d)")
+
+
+def _date_fields(v):
+    m = _DATE.fullmatch(v) if isinstance(v, str) else None
+    return [int(x) for x in m.groups()] if m else None
+
+
+def _run_created(it, rng):
+    """getAttrWithFallback(info, "openTypeHeadCreated") (what OutlineCompiler.setupTable_head asks for) with SOURCE_DATE_EPOCH as
+    given, under two different wall clocks (time.gmtime() without argument answers `now`)"""
+    import os
+    import time
+    from ufo2ft.fontInfoData import getAttrWithFallback
+    info = {"familyName": "C08"}
+    if it["explicit"]:
+        info["openTypeHeadCreated"] = it["explicit"]
+    font = build({"glyphs": [], "info": info}, it["lib"])
+    real, saved, obs = time.gmtime, os.environ.get("SOURCE_DATE_EPOCH"), {}
+    try:
+        if it["env"] is None:
+            os.environ.pop("SOURCE_DATE_EPOCH", None)
+        else:
+            os.environ["SOURCE_DATE_EPOCH"] = it["env"]
+        for key, now in zip("ab", it["now"]):
+            time.gmtime = lambda secs=None, now=now: real(now if secs is None else secs)
+            try:
+                obs[key] = _date_fields(getAttrWithFallback(font.info, "openTypeHeadCreated"))
+            except Exception:
+                obs[key] = None
+    finally:
+        time.gmtime = real
+        if saved is None:
+            os.environ.pop("SOURCE_DATE_EPOCH", None)
+        else:
+            os.environ["SOURCE_DATE_EPOCH"] = saved
+    try:
+        value = None if it["env"] is None else int(it["env"])
+    except ValueError:
+        value = None
+    kind = "unset" if it["env"] is None else "invalid" if value is None else "zero" if value == 0 else "positive"
+    return {"op": "created", "in": {"explicit": _date_fields(it["explicit"]), "env": {"set": it["env"] is not None, "value": value}, "now": it["now"]},
+            "obs": obs, "tags": ["emit:created", "emit:created:env=" + kind, "emit:created:explicit=%s" % bool(it["explicit"])],
+            "nontrivial": kind in ("zero", "positive") and not it["explicit"]}
+
+
+def _run_closest(it, rng):
+    """propagateAnchors._bounds and _component_closest_to_origin on the components of a mark-only composite, in the copied glyph
+    set the pre-processor hands to the filter, built with defcon and with ufoLib2"""
+    import ufo2ft.filters.propagateAnchors as P
+    from ufo2ft.util import _GlyphSet
+    obs = {}
+    for lib in ("defcon", "ufoLib2"):
+        font = build({"glyphs": it["glyphs"]}, lib)
+        gs = _GlyphSet.from_layer(font, copy=True)
+        comps = list(gs[it["composite"]].components)
+        try:
+            bounds = [[rat(v) for v in P._bounds(c, gs)] for c in comps]
+            ch = P._component_closest_to_origin(comps, gs)
+            chosen = [k for k, c in enumerate(comps) if c is ch][0]
+        except Exception:    # pragma: no cover
+            bounds, chosen = [], None
+        obs[lib] = {"bounds": bounds, "chosen": chosen}
+    return {"op": "closest", "in": {"exact": it["exact"]}, "obs": obs, "tags": ["emit:closest", "emit:closest:chosen=%s" % obs["ufoLib2"]["chosen"]],
+            "nontrivial": len(it["exact"]) > 1}
+
+
+RUNNERS = {"created": _run_created, "closest": _run_closest, "vfinfo": _run_vfinfo, "copyglyph": _run_copyglyph, "kernwrite": _run_kernwrite, "register": _run_register, "split": _run_split, "color": _run_color, "sortnames": _run_sortnames,
            "curs": _run_curs, "carets": _run_carets, "glyphclass": _run_glyphclass, "toadd": _run_toadd}
 
 
 def _run_digests(case):
-    base = {"fds": case["fds"], "opts": case["opts"], "vfinfo": case.get("vfinfo")}
+    base = {"fds": case["fds"], "opts": case["opts"], "vfinfo": case.get("vfinfo"), "epoch": case.get("epoch")}
     refobs = L.run_worker(dict(base, **{k: case["ref"][k] for k in ("lib", "source", "reopen", "shuffle", "steps")}), case["ref"]["hashseed"])
     ref, reftabs = {}, {}
     for kind, mode, sha, tabs in refobs:
@@ -689,7 +796,8 @@ def _run_digests(case):
     st = case["fds"][0].get("_stats", {})
     tags.update(["scripts=%d" % len(st.get("scripts", [])), "cats:" + str(st.get("cats")), "lsys:" + str(st.get("lsys")),
                  "masters=%d" % len(case["fds"]), "vf-fontinfo=%d" % len(case.get("vfinfo") or []), "contextual-anchors=%d" % min(st.get("ctx", 0), 2),
-                 "colliding-propagated-anchors:" + str(bool(st.get("collide"))), "dense-kerning:" + str(bool(st.get("dense")))] + ["opt:" + k for k in case["opts"]] + ["filter:" + f for f in st.get("filters", [])])
+                 "colliding-propagated-anchors:" + str(bool(st.get("collide"))), "mark-only-ligature-with-curve-extrema:" + str(bool(st.get("markliga"))),
+                 "SOURCE_DATE_EPOCH:" + ("default" if case.get("epoch") is None else "0" if int(case["epoch"]) == 0 else "other"), "dense-kerning:" + str(bool(st.get("dense")))] + ["opt:" + k for k in case["opts"]] + ["filter:" + f for f in st.get("filters", [])])
     if any(s.startswith("ERR") for s in ref.values()):
         tags.add("ref-error")
     nontrivial = len(st.get("scripts", [])) >= 2 and st.get("pairs", 0) > 0 and st.get("marks", 0) > 0
@@ -722,6 +830,8 @@ def agree(req, rep):
         return m["a"] == o["a"]
     if req["op"] == "copyglyph":
         return m["ufoLib2"] == o["ufoLib2"] and m["defcon"] == o["defcon"]
+    if req["op"] == "closest":
+        return m == o
     if req["op"] == "vfinfo":
         return all(m[l]["after"] == o[l]["after"] and m[l]["temp"] == o[l]["temp"] for l in ("ufoLib2", "defcon"))
     return m["a"] == o["a"] and m["b"] == o["b"]
@@ -806,11 +916,19 @@ LEVEL_TEXT = ("Proved for all inputs (Lean): every modelled place where the kern
               "fontinfo overrides that hypothesis is proved, not assumed: InfoCompiler's constructor (heap model with object identity, defcon and "
               "ufoLib2 branch) writes to no Info object that existed before the call, and the temporary Info it builds is the same for both "
               "libraries (override where given, master's value elsewhere), so a history containing such variable builds returns first-call "
-              "results (C08_history_vfinfo). Decisive runtime part: sha256 of "
+              "results (C08_history_vfinfo). Environment: with SOURCE_DATE_EPOCH set to ANY value (0 included) or an explicit "
+              "openTypeHeadCreated, the modelled head.created is the same for every wall clock (created_pinned), and without it it is not "
+              "(created_unset_clock). UFO library: the component promoted to base in a mark-only composite is the first one nearest to the "
+              "origin for every list of bounds (closest_spec), so the two library branches of _bounds choose alike whenever they report the "
+              "same corners (closest_lib_agnostic) - that they do is observed, on curves without on-curve extrema. Decisive runtime part: sha256 of "
               "fonts from fresh interpreters over hash seeds x histories x UFO library x memory/disk x inplace x container order.")
 LEVEL_NOTE = ("Trusted: Lean kernel + standard axioms; the correspondence harness; determinism of fontTools & co. is measured, not modelled; hash seeds "
               "are sampled. The Lean models cover the emitters listed in Model/C08.lean, not whole writers (those are C05/C06/C18's models). "
               "MATH / colour layers excluded here (C07 findings). The InfoCompiler model covers the constructor's Info handling only; that the "
               "name/OS2/hhea/head/post values of the variable font are a function of that temporary Info, and that nothing ELSE in a variable "
               "build writes to the masters, is observed by the digest histories (static / variable compiles after a variable build with "
-              "overrides), not proved.")
+              "overrides), not proved. `created`: the predicate (same result under two clocks + the date denotes the instant, counted year by "
+              "year) is evaluated by the Lean driver on observed data; the clock is faked in-process for the emitter stream and real (interpreters "
+              "seconds apart, SOURCE_DATE_EPOCH=0 and other values) in the digest stream. `closest`: the equality of defcon's Component.bounds and "
+              "fontTools' BoundsPen with the exact corners is a predicate-only observation (external library behaviour), the argmin is modelled "
+              "and proved.")
